@@ -200,7 +200,11 @@ def _run_unit_once(idx):
             nbad = 0
             profiles = getattr(c, "hint_profiles", None)
             profiles = profiles() if profiles else None
+            skip = getattr(unit, "skip_obligations", None) or ()
             for ob in eng.obligations:
+                if skip and ob.kind != "cover" and any(x in ob.name for x in skip):
+                    rec["not_needed_by_this_property"] = rec.get("not_needed_by_this_property", 0) + 1
+                    continue  # an obligation of this function's contract that the property at hand does not rest on
                 if profiles:
                     ob.hints = profiles
                 if nbad >= MAX_BAD_PER_UNIT:
